@@ -450,11 +450,12 @@ void EGLPNUM_TYPENAME_ILLprice_init_mpartial_price (
 	p = (pricetype == COL_PRICING) ? &(pinf->pmpinfo) : &(pinf->dmpinfo);
 	p->bsize = 0;
 	i = p->cgroup;
-	do
-	{
-		EGLPNUM_TYPENAME_ILLprice_mpartial_group (lp, p, phase, i, pricetype);
-		i = (i + 1) % p->ngroups;
-	} while (i != p->cgroup && p->bsize <= p->k);
+	if (p->ngroups > 0)		/* no group to price in a problem without rows (nonbasic columns) */
+		do
+		{
+			EGLPNUM_TYPENAME_ILLprice_mpartial_group (lp, p, phase, i, pricetype);
+			i = (i + 1) % p->ngroups;
+		} while (i != p->cgroup && p->bsize <= p->k);
 	p->cgroup = i;
 }
 
@@ -525,11 +526,12 @@ void EGLPNUM_TYPENAME_ILLprice_update_mpartial_price (
 #endif
 
 	i = p->cgroup;
-	do
-	{
-		EGLPNUM_TYPENAME_ILLprice_mpartial_group (lp, p, phase, i, pricetype);
-		i = (i + 1) % p->ngroups;
-	} while (i != p->cgroup && p->bsize <= p->k);
+	if (p->ngroups > 0)		/* no group to price in a problem without rows (nonbasic columns) */
+		do
+		{
+			EGLPNUM_TYPENAME_ILLprice_mpartial_group (lp, p, phase, i, pricetype);
+			i = (i + 1) % p->ngroups;
+		} while (i != p->cgroup && p->bsize <= p->k);
 	p->cgroup = i;
 
 #ifdef MULTIP
